@@ -641,8 +641,8 @@ impl<Point: Coordinate+Coordinate2D, Label: Copy> GraphPath<Point, Label> {
                     }
                 }
 
-                // If we introduced duplicates, remove them
-                if remapped {
+                // If we introduced duplicates, remove them (merging two points that are both reached from the same point also introduces a duplicate)
+                if remapped || point.connected_from.len() > 1 {
                     point.connected_from.sort_unstable();
                     point.connected_from.dedup();
                 }
